@@ -27,7 +27,7 @@ CHECKS.update({
     note='Time-domain and transient power clauses are discharged in C09 / C12. Bounds: network level up to 3 nodes / 3 branches (4 in thorough) plus samples to 7 nodes / 11 branches; circuit level on a seeded subset of the C02 configurations.' + COMMON_NOTE, ref='DESIGN.md §3 C05'),
  'C06': dict(technique=TECH + '; certificates with product multipliers relating the inverse-matrix stub to an independent unit-current tableau',
     text='Bounded symbolic verification of port impedance and equivalent sources: open_circuit_impedance / element_impedance are executed with np.linalg.inv as contract stub; z3 shows the reported value equals phi(a)-phi(b) of an independent tableau of the source-free network with a unit test current, for all positive-real / purely reactive values; identical nodes give 0; disconnected ports must not give a finite value; Isc*Zth = Voc and the Thevenin/Norton wrappers are identities on the reported values.',
-    note='The load formula V = Voc Z_L/(Zth+Z_L) is the mathematical consequence of exact Zth and Voc and is not separately discharged. Values: R, G > 0, reactive elements purely imaginary with one sign per configuration (no resonance cancellation). Bounds: every ordered node pair and element of connected multigraphs up to 3 nodes / 2 branches exhaustively over 10 kinds, sampled to 4 nodes / 5 branches.' + COMMON_NOTE, ref='DESIGN.md §3 C06'),
+    note='The load formula V = Voc Z_L/(Zth+Z_L) is the mathematical consequence of exact Zth and Voc and is not separately discharged. The Circuit.impedance sweep wrappers are checked on RLC topologies over unsorted / repeated frequency lists against the network-level value and the closed form. Values: R, G > 0, reactive elements purely imaginary with one sign per configuration (no resonance cancellation). Bounds: every ordered node pair and element of connected multigraphs up to 3 nodes / 2 branches exhaustively over 10 kinds, sampled to 4 nodes / 5 branches.' + COMMON_NOTE, ref='DESIGN.md §3 C06'),
  'C16': dict(technique=TECH + '; structural assertions per path',
     text='Bounded symbolic verification of every transformer in Network/transformers.py: structural claims (survivor ids, order, orientation, identical element objects, exemption list, untouched input) are asserted on every path; the solution of the simplified network, extended to absorbed nodes, is shown by z3 to satisfy the tableau of an independently simplified description for all complex values.',
     note='A result that still contains an uncontracted short is accepted when electrically equivalent. Bounds: well-posed base networks up to 3 nodes / 3 branches (4 in thorough) augmented with up to 3 shorts and 2 opens (chains, stars, parallel, touching the reference), all operations, exemption subsets.' + COMMON_NOTE, ref='DESIGN.md §3 C16'),
@@ -37,10 +37,10 @@ CHECKS.update({
 CHECKS.update({
  'C07': dict(technique=TECH + '; polynomial identities against the statement\'s formulas',
     text='Bounded symbolic verification of transform_circuit on one component of every kind components.py can construct (symbolic parameters, symbolic analysis frequency and resolution, varying position, neighbours and ground placement): z3 / normal form decide, in every region of the frequency gate, that the branch has the immittance and source value of the statement (R, 1/G, R+jX, 1/(G+jB), jwL, jwC, V_ref^2/P, A e^{j phi} in band, short/open off band, the true n-th harmonic for periodic sources obtained by integrating the waveform\'s own time function); ids, order, terminal order, neighbours\' values and the reference-node rule are asserted per path; the harness fails if components.py gains a constructor it does not know.',
-    note='Harmonic index of periodic sources bounded by 4; fundamental above twice the resolution; special values 0 / inf / w=0 as explicit cases.' + COMMON_NOTE, ref='DESIGN.md §3 C07'),
+    note='Harmonic index of periodic sources bounded by 4; fundamental above twice the resolution; special values 0 / inf / w=0 as explicit cases; a second conversion with another resolution and the list wrapper transform(circuit, w=[...]) are checked entry by entry.' + COMMON_NOTE, ref='DESIGN.md §3 C07'),
  'C08': dict(technique='symbolic execution of the real time functions (mod as contract stub, comparison forks) + exact closed-form integration; identities decided by normal form / z3 over Q(j)(A, e^{j phi}, offset, T, pi)',
     text='Bounded symbolic verification: the piecewise description of each built-in waveform is extracted by executing its own time function on a symbolic instant; the true Fourier coefficient is computed from it by exact integration and compared as a polynomial identity with amplitude(n), phase(n), a(n), b(n), c(n), c(-n) of the real fourier_series objects for every harmonic order up to the bound, for all amplitudes, phases, offsets and periods; lookup by type name is asserted.',
-    note='Harmonic orders 0..12 (quick) / 0..60 (thorough); pi is a free transcendental atom (sound and complete for identities with rational coefficients); Parseval / mean-square convergence (an infinite sum) is not discharged.', ref='DESIGN.md §3 C08'),
+    note='Harmonic orders 0..12 (quick) / 0..400 (thorough); array sampling of the time functions with np.vectorize's output-type inference modelled; pi is a free transcendental atom (sound and complete for identities with rational coefficients); Parseval / mean-square convergence (an infinite sum) is not discharged.', ref='DESIGN.md §3 C08'),
  'C09': dict(technique=TECH + '; polar contract stub for abs/angle; symbolic ordering and coincidence of frequencies',
     text='Bounded symbolic verification of frequency_components, FrequencyDomainSolution and TimeDomainSolution with symbolic source frequencies, w_max, time and values: all orderings / coincidences of the frequencies and all gate regions are explored; the analysed frequency list equals an independent list; each spectral line satisfies the tableau at its frequency (periodic sources contribute their true harmonic); the time functions equal sum_k Re(X_k e^{j w_k t}); two-sided spectra must be X_0, X_k/2, conj(X_k)/2; sources within the frequency resolution of each other must not be counted twice. Two genuine defects are recorded as known findings.',
     note='At most 3 harmonics per periodic source below w_max; RC / RL (thorough: also RLC) circuits with 1-2 sources; KCL at every instant and superposition in the time domain are mathematical consequences of the discharged statements.' + COMMON_NOTE, ref='DESIGN.md §3 C09'),
@@ -49,7 +49,7 @@ CHECKS.update({
     note='Circuits: all non-degenerate RLC + ideal-source circuits up to 2 nodes / 2 components (thorough: 3 nodes / 3), seeded samples up to 4 nodes / 4 (thorough 5 nodes / 6) with <= 3 reactive elements and <= 2 sources; degenerate circuits excluded by exact rank tests.' + COMMON_NOTE, ref='DESIGN.md §3 C10'),
  'C11': dict(technique=TECH + '; sum-of-squares (Tellegen) certificate, depth 3',
     text='Bounded symbolic verification of passivity: with the code\'s own A and resistor-voltage rows z3 shows sum_k lambda_k X_k (A X)_k + sum_R (c_row_voltage(R) X)^2 / R = 0 for all real X and all positive R, L, C, i.e. W A + A^T W is negative semidefinite; eigenvalue and boundedness clauses are its mathematical consequences.',
-    note='Same circuit family as C10. The simulated-energy clause depends on the integrator, which is not encoded (see C12).' + COMMON_NOTE, ref='DESIGN.md §3 C11'),
+    note='Same circuit family as C10. The simulated-energy clause depends on the integrator, which is not encoded; its wiring (scipy.signal.lsim receives exactly (A,B,C,D), U, T) is checked with recording stubs as in C12.' + COMMON_NOTE, ref='DESIGN.md §3 C11'),
  'C12': dict(technique=TECH + '; recording stubs for the integrator',
     text='Bounded symbolic verification of the transient machinery without the integrator: for ARBITRARY state and input vectors the reported currents obey KCL at every node, voltages are potential differences, resistors obey Ohm, source rows equal their inputs, states are the capacitor voltages / inductor currents, capacitor current rows equal C*(A x + B u) and inductor voltage rows L*(A x + B u); TransientSolution feeds the inputs in the model\'s own source order by name with zero initial state and model (A,B,I,0) and its getters return c_row x_k + d_row u_k; continuous_state_space_solver hands exactly (A,B,C,D) and (U,T) to scipy and returns its result untouched.',
     note='scipy.signal.lsim (compiled numerical code) is NOT encoded: accuracy of the simulated trajectory, agreement with the exact response for piecewise-linear inputs and settling to the DC / periodic steady state are outside this claim (they follow from lsim\'s documented contract together with C10 / C11).' + COMMON_NOTE, ref='DESIGN.md §3 C12'),
@@ -61,28 +61,28 @@ CHECKS.update({
     note='Bounds: bases up to 3 nodes / 3 branches (thorough: samples up to 4 / 5), 1-3 seeded variants each plus a symbolic-order variant for small bases; seeded subsets of the C02 and C06 configuration sets.' + COMMON_NOTE, ref='DESIGN.md §3 C03'),
  'C17': dict(technique=TECH + '; CrossHair 0.0.110 (symbolic execution of Python with z3) for string-valued inputs', engine='symx',
     text='Bounded symbolic verification of both loader tables and the complex-value (de)serialisation helpers: every kind is loaded from an entry with symbolic numbers (id, terminals, kind, every value discharged as identities; the description compared deeply before / after; second load equal to first); Cartesian and polar (radian / degree) notations denote the same number (angle atoms); nested documents of five shapes survive dictify / undictify and serialize / deserialize for json, yaml, yml unchanged and unmutated; CrossHair confirms over all paths the same for symbolic identifier and node strings. The harness fails when a loader table gains a key it does not know.',
-    note='The real json / yaml encoders (C code) are stubs (identity on representable trees, rejecting complex leaves) in symbolic mode and the real libraries in concrete replay and in a concrete sanity sweep. Document keys other than the reserved words real / imag / abs / phase / phase_deg. CrossHair domains: identifiers <= 2 characters.', ref='DESIGN.md §3 C17'),
+    note='The real json / yaml encoders (C code) are stubs (identity on representable trees, rejecting complex leaves) in symbolic mode; the stub is validated in every run against the real library calls on boundary numbers (1e-05, 1e+16, subnormal, largest, integers) and seeded random numbers, a failing concrete round trip being a violation; a second load after the caller edited the first result must still give the saved document. Document keys other than the reserved words real / imag / abs / phase / phase_deg. CrossHair domains: identifiers <= 2 characters.', ref='DESIGN.md §3 C17'),
  'C19': dict(technique=TECH + '; CrossHair 0.0.110 for symbolic strings / positions', engine='symx',
-    text='Bounded symbolic verification of rejection rules: every sign rule of every constructor in components.py and the reference rules of elements.load with the constrained parameter a symbolic real (comparison forks; negative rejected, otherwise accepted and stored unaltered); CrossHair confirms over all paths that duplicate identifiers, a floating reference and multiple grounds are rejected at any position for symbolic strings, that unknown types / waveforms / missing fields are rejected by both loaders; unknown identifiers must raise against network, DC, complex, time-domain, frequency-domain and transient solutions; the declarative front end\'s dispatch table is enumerated completely.',
+    text='Bounded symbolic verification of rejection rules: every sign rule of every constructor in components.py and the reference rules of elements.load with the constrained parameter a symbolic real (comparison forks; negative rejected, otherwise accepted and stored unaltered); CrossHair confirms over all paths that duplicate identifiers, a floating reference and multiple grounds are rejected at any position for symbolic strings, that unknown types / waveforms / missing fields are rejected by both loaders; the sign rules again through the description loader in both notations; unknown waveform types at the periodic-source constructors; unknown identifiers must raise against network, DC, complex, time-domain, frequency-domain and transient solutions; the declarative front end\'s dispatch table is enumerated completely.',
     note='CrossHair domains: identifier strings <= 2 characters, lists <= 4. Rejection at construction or loading with any documented exception type counts.', ref='DESIGN.md §3 C19'),
  'C20': dict(technique='inductive frame check by symbolic execution (module-state snapshot + argument object graphs + repeated-call identity) with z3-decided paths; AST scan; CrossHair for loader purity',
-    text='One inductive step per public operation (33 operations of C01-C12, C16, C17) from a pristine module state with symbolic arguments: afterwards every CircuitCalculator module\'s global containers, function defaults, keyword defaults, closure cells and class-level containers equal their snapshot, every argument object graph is structurally unchanged, and the call repeated after an interleaved call on another circuit returns the identical symbolic result on every path. Induction over call sequences then gives history independence for sequences of any length.',
+    text='One inductive step per public operation (35 operations of C01-C12, C16, C17, including re-evaluation of returned time functions and re-querying of a solution object) from a pristine module state with symbolic arguments: afterwards every CircuitCalculator module\'s global containers, function defaults, keyword defaults, closure cells and class-level containers equal their snapshot, every argument object graph is structurally unchanged, and the call repeated after an interleaved call on another circuit returns the identical symbolic result on every path. Induction over call sequences then gives history independence for sequences of any length.',
     note='State inside numpy / scipy (C level) is outside the snapshot; the operation list is finite and stated in evidence.', ref='DESIGN.md §3 C20'),
 })
 
 CHECKS.update({
  'C13': dict(technique=TECH + '; symbolic terminal coordinates (equality forks, union-find fast path) through the real parser and translator',
     text='Bounded symbolic verification of the schematic reader: real symbol objects of every two-terminal kind (all reversal / sine / degree flag combinations), wires, node labels and ground are given SYMBOLIC terminal coordinates; the real SchematicDiagramParser and circuit_translator are executed and every coincidence pattern of the terminals is explored; on every path the node index of every terminal pair agrees with an independent union-find over "coincide or joined by a wire", labels and ground name the node they sit on, and the translated component list equals the intended netlist (identifier, kind, terminal order with source polarity start->end unless reversed, every value as a polynomial identity, degree->radian and sine->cosine phase conversion).',
-    note='schemdraw\'s own placement arithmetic (at / right / up, rotation, unit scaling) and the 2-decimal rounding of anchors are NOT encoded: anchors are free symbolic coordinates, so the rotation / translation / rescaling / wire-splitting clause holds exactly as far as those operations preserve which terminals coincide. Element lists up to 4 (quick) / 5 (thorough) items; compound RealVoltageSource / RealCurrentSource symbols not covered; label text stubbed.', ref='DESIGN.md §3 C13'),
+    note='schemdraw\'s own placement arithmetic (at / right / up, rotation, unit scaling) is NOT encoded: anchors are free symbolic coordinates, or (grid configurations) concrete grid points plus bounded floating-point noise pushed through the real coordinate rounding, so the rotation / translation / rescaling / wire-splitting clause holds exactly as far as those operations preserve which terminals coincide. Element lists up to 4 (quick) / 5 (thorough) items; compound RealVoltageSource / RealCurrentSource symbols not covered; label text stubbed.', ref='DESIGN.md §3 C13'),
  'C14': dict(technique=TECH + '; recording stubs for the formatter and the label classes',
     text='Bounded symbolic verification of the annotation plumbing: every adapter getter in both directions and every draw_* factory of the four solution factories (and the declarative SolutionDefinition) is executed on drawings with symbolic values and symbolic frequency; z3 / normal form shows the number handed to the formatter equals the circuit solution quantity in the element\'s reference direction, negated exactly when reverse is requested, with the right unit, frequency and unchanged display options; the sinusoidal annotation carries the peak phasor, equal to sqrt(2) times the complex (RMS) annotation, and the real annotation equals Re(sqrt(2) x complex at w = 0); arrow direction is reverse XOR element-reversed.',
-    note='The TEXT rendering of the number is C18\'s subject (formatters are recording stubs here; the phase / frequency text of print_sinosoidal is not discharged); connectivity is C13\'s subject (concrete coordinates here); schemdraw label placement is stubbed.', ref='DESIGN.md §3 C14'),
+    note='The chain is checked link by link: adapters / factories with the formatters as recording stubs, and the formatter link (ScientificComplex / ScientificFloat and the Display.py helpers, print_sinosoidal included) with the C18 machinery on a subset of decades away from the recorded C18 findings; connectivity is C13\'s subject (concrete coordinates here); schemdraw label placement is stubbed.', ref='DESIGN.md §3 C14'),
  'C15': dict(technique=TECH + '; json as identity-on-representable-trees stub; real schemdraw geometry with symbolic element values',
     text='Bounded symbolic verification of save / reload and declarative descriptions: real schemdraw drawings with one source of every persistable kind (every reversal / degree / sine flag combination), two passive symbols, a wire and ground, whose values are symbolic, are serialised and reloaded once and twice through the real dictify / undictify code; the reloaded drawing is translated by the real parser / translator and compared with the original circuit (identifiers, kinds, order, terminal order, connectivity up to a bijective renaming of nodes, reference node, every value as a polynomial identity); declarative element lists (direction orders, lengths, place_after, unit) are compared with the equivalent programmatic construction.',
-    note='Geometry is produced by schemdraw itself and is concrete; the real json library is used in concrete replay only; file I/O is not exercised; the identifier of the ground symbol is not compared.', ref='DESIGN.md §3 C15'),
+    note='Geometry is produced by schemdraw itself and is concrete; the real json library is used in concrete replay only; the same description object is also built twice and must stay untouched; file I/O is not exercised; the identifier of the ground symbol is not compared.', ref='DESIGN.md §3 C15'),
  'C18': dict(technique='symbolic execution of the real formatting code on a symbolic real per decade with a decimal-numeral contract model of str(float) / format(float), contract stubs on a decimal grid for round / int / %1, token-based numeral parser; z3 mixed integer / real linear arithmetic; CrossHair for the prefix logic',
     text='Bounded symbolic verification of number rendering: FloatPrecision / Float3 / ScientificFloat / ScientificComplex are executed on a symbolic value for every decade k = -17..16, precision, prefix mode and sign; every rounding-carry region is explored by forking; z3 shows on every path that the rendered text, parsed back (sign, integer digits, fraction digits, exponent suffix, SI prefix), lies within half a unit of the p-th significant digit, has an exponent that is a multiple of three, a mantissa between 1 and 1000 with well-formed fraction digits, that infinity appears only beyond the range with the right sign, and that complex values render as [sign]R[+/-]jI from the renderings of |re| and |im|; CrossHair confirms prefix + extension denote the exponent for arbitrary exponents and tables. Two genuine defects are recorded as known findings.',
-    note='Floats are treated as reals and str(float) / format(float) as the exact decimal expansion (the C routine behind str and the binary representation error of digits are outside the model; the model is validated against the real str()/format() on a concrete sweep). Precision 1..4 (quick) / 1..6 (thorough). Polar / degree rendering of complex values is not discharged.', ref='DESIGN.md §3 C18'),
+    note='Floats are treated as reals and str(float) / format(float) as the exact decimal expansion (the C routine behind str and the binary representation error of digits are outside the model; the model is validated against the real str()/format() on a concrete sweep). Precision 1..4 (quick) / 1..6 (thorough). Polar rendering (radians / degrees) and every helper of Display.py are discharged the same way; three genuine defects are recorded as known findings.', ref='DESIGN.md §3 C18'),
 })
 
 NOT_YET = {}
